@@ -124,6 +124,11 @@ type gsRec struct {
 	Digest string
 }
 
+type fetchReq struct {
+	H    uint64
+	Hash string
+}
+
 type failure struct {
 	finding, clause, detail string
 }
@@ -188,6 +193,7 @@ type sim struct {
 	fSigned        map[string]string
 	signed         map[string]map[string]bool
 	phLog          []phLogEntry
+	fetchReqs      []fetchReq
 	futureStored   map[string]bool // rounds for which votes were stored while the round was still in the future
 	realCertificates bool // replays carry certificates consistent with what validators signed before
 	incStartGS     int
@@ -313,6 +319,7 @@ func (s *sim) settle(rs ...*callResult) {
 
 func (s *sim) start(crashAt int) {
 	s.incStartGS, s.incStartSM = len(s.gsRecv), len(s.smRecv)
+	s.fetchReqs = nil // fetch requests die with the process
 	inc := newIncarnation(s.d)
 	if crashAt > 0 {
 		inc.crashAt = crashAt
@@ -459,7 +466,9 @@ func (s *sim) drainAll() {
 		default:
 		}
 		select {
-		case <-s.n.fetch.ReqCh:
+		case fr := <-s.n.fetch.ReqCh:
+			s.fetchReqs = append(s.fetchReqs, fetchReq{H: fr.Height, Hash: fr.BlockHash})
+			s.label("fetch-requested")
 			progressed = true
 		default:
 		}
@@ -646,6 +655,8 @@ func (s *sim) exec(op Op) {
 		s.execCrash(op)
 	case "restart":
 		s.execRestart(op)
+	case "fetch":
+		s.execFetch(op)
 	case "time":
 		time.Sleep(time.Duration(max(1, op.N)) * 100 * time.Millisecond)
 	default:
